@@ -171,6 +171,20 @@ def rule_c(ctx: Context, R: Reporter, F: Freshness):
                 b = node.func.value
                 inner = b.value if isinstance(b, ast.Subscript) else b
                 is_hist = isinstance(inner, ast.Attribute) and inner.attr == "_history"
+                if not is_hist and isinstance(b, ast.Subscript) and isinstance(b.value, ast.Name) and isinstance(b.slice, ast.Constant):
+                    # a section of a locally built dict that still *is* the internal container:
+                    # d = {"_history": self._history}; d["_history"].pop(k)
+                    flow = flow_of(fi.node)
+                    at = flow.node_containing(node)
+                    for d in (flow.reaching(at, b.value.id) if at is not None else []):
+                        if isinstance(d.value, ast.Dict):
+                            for k_, v_ in zip(d.value.keys, d.value.values):
+                                if isinstance(k_, ast.Constant) and k_.value == b.slice.value and isinstance(v_, ast.Attribute) and isinstance(v_.value, ast.Name) and v_.value.id == "self" \
+                                        and v_.attr in ("_history", "_current"):
+                                    if node.func.attr in MUTATORS or node.func.attr in ("pop", "clear", "popitem", "update", "setdefault", "__delitem__"):
+                                        R.check("C17.c", "internal state dictionaries are not mutated through an exported alias", False, fi, node,
+                                                msg=f"{fi.short}: `{unparse(node)[:70]}` mutates self.{v_.attr} itself (the local dict holds a reference, not a copy): "
+                                                    f"recorded quantities and their committed batches disappear from the live state", key=f"alias-mutation:{v_.attr}:{node.func.attr}")
                 if not is_hist and isinstance(b, ast.Name):
                     # alias: history = self._history[key]
                     flow = flow_of(fi.node)
